@@ -158,8 +158,40 @@ class FreshWorld(World):
         return need <= have
 
     def gen_op(self, rng, frng):
+        # scripted multi-step scenarios (recorded as ordinary ops): uniformly random schedules mostly revisit the same
+        # states, so a few known-hard orderings are injected now and then
+        q = getattr(self, "_queue", [])
+        if q:
+            op = q.pop(0)
+            rec = self.sims[op["s"]] if "s" in op else self.sims[0]
+            if op["op"] == "set_iter":
+                others = [i for i, h in enumerate(rec.iters) if h != rec.hist_i]
+                if not others:
+                    self._queue = []
+                else:
+                    op["i"] = others[int(rng.integers(len(others)))]
+                    return op
+            elif op["op"] == "coord":
+                op.update(mesh=rec.mesh_i, kind=["jitter", "scale", "rigid"][int(rng.integers(3))], aseed=int(rng.integers(1 << 30)))
+                return op
+            elif op["op"] == "read":
+                op["op"] = "solve" if (self._well_posed(rec) and rng.random() < 0.5) or rec.type in simlib.NONLINEAR else "kcmf"
+                if op["op"] == "solve" and not self._well_posed(rec):
+                    op["op"] = "kcmf" if rec.type not in simlib.NONLINEAR else "save_iter"
+                op["_mut"] = op["op"] != "kcmf"
+                return op
+            else:
+                return op
         s = int(rng.integers(len(self.sims)))
         rec = self.sims[s]
+        if len(self.meshes) > 1 and rec.type != "WeakForms" and rng.random() < 0.05:
+            other = [j for j in range(len(self.meshes)) if j != rec.mesh_i]
+            j = other[int(rng.integers(len(other)))]
+            # save on the current mesh, replace it, save, come back with Set_Iter, read, move the old mesh, read
+            self._queue = [{"op": "setmesh", "s": s, "mesh": j}, {"op": "save_iter", "s": s}, {"op": "set_iter", "s": s},
+                           {"op": "read", "s": s}, {"op": "coord"}, {"op": "read", "s": s}]
+            self._queue[4]["s"] = s
+            return {"op": "save_iter", "s": s}
         # meshes in use are moved more often than idle ones
         used = sorted({r.mesh_i for r in self.sims})
         mrec_i = used[int(rng.integers(len(used)))] if rng.random() < 0.8 else int(rng.integers(len(self.meshes)))
@@ -204,6 +236,13 @@ class FreshWorld(World):
             w["set_iter"] = 0
         if len(simlib.sim_algos(rec.type)) > 1 and rec.algo["algo"] == "elliptic":
             w["algo"] = 3
+        if len(self.meshes) > 1 and rec.type != "WeakForms":
+            # histories over several meshes: save on one, replace, come back with Set_Iter, move the old mesh
+            w["setmesh"] = 1.5
+            w["save_iter"] = 2.5
+        self._other_iters = [i for i, h in enumerate(rec.iters) if h != rec.hist_i]
+        if self._other_iters:
+            w["set_iter"] = 3
         names = sorted(w)
         p = np.array([w[n] for n in names], dtype=float)
         name = names[int(rng.choice(len(names), p=p / p.sum()))]
@@ -270,7 +309,11 @@ class FreshWorld(World):
             rs = simlib.sim_results(rec.type, self.dim)
             op.update(s=s, name=rs[int(rng.integers(len(rs)))], nodeValues=bool(rng.integers(2)))
         elif name == "set_iter":
-            op.update(s=s, i=int(rng.integers(len(rec.iters))))
+            others = [i for i, h in enumerate(rec.iters) if h != rec.hist_i]
+            if others and rng.random() < 0.7:
+                op.update(s=s, i=others[int(rng.integers(len(others)))])
+            else:
+                op.update(s=s, i=int(rng.integers(len(rec.iters))))
         if name in ("solve", "kcmf", "result"):
             op["_mut"] = name == "solve"
         # who is affected by this mutator?
@@ -378,6 +421,9 @@ class FreshWorld(World):
             return "ok"
 
         if name in ("translate", "rotate", "symmetry", "coord"):
+            if name == "coord" and "s" in op:
+                # scenario form: move the mesh the simulation currently uses
+                op = dict(op, mesh=self.sims[op["s"]].mesh_i) if op["s"] < len(self.sims) else op
             mrec = self.meshes[op["mesh"]]
             with ctx.sut():
                 if name == "translate":
